@@ -135,6 +135,30 @@ def rule_w1(ctx) -> RuleResult:
                     "setter of a persisted (or metadata-derived) attribute neither stores, delegates nor persists",
                     resolved_on=K.name,
                 )
+    # W1m: public methods (not accessors) that store persisted backing fields directly owe the same persistence
+    n_methods = 0
+    seen_m = set()
+    for K in families(ctx):
+        if K.synthetic or _declared_abstract(ctx.p, K) or component_domain(K) is not None or K.name == "Workspace":
+            continue
+        for c in K.mro:
+            if isinstance(c, str):
+                continue
+            for name, fn in c.methods.items():
+                if name.startswith("_") or K.lookup(name)[2] is not fn:
+                    continue
+                summ = eng.analyse(fn, K)
+                own_stores = {f for (r, f) in summ.stores if r == "self" and f in eng.persisted_fields(K)}
+                if not own_stores:
+                    continue
+                n_methods += 1
+                dirty = {(r, f) for (r, f) in summ.dirty if f not in DEFERRED_FIELDS and not _none_asserted(fn, f)}
+                res.inst(f"{K.name}.{name} (method) stores {sorted(own_stores)}", nontrivial=True, ok=not dirty)
+                for recv, f in sorted(dirty):
+                    res.find(fn.cls.name, name, f"{recv}.{f} not persisted after last store", fn.where,
+                             f"method {fn.qualname} stores the persisted field {f} directly and a normal path reaches the exit without a "
+                             "persistence call covering it: memory and file differ after the call", resolved_on=K.name)
+    res.notes.append(f"{n_methods} (class, method) pairs store persisted fields outside setters")
     # mutators of component objects that are not setters
     rvm = ctx.p.cls("ReferenceValueMap")
     for name, fn in rvm.methods.items():
@@ -153,6 +177,18 @@ def rule_w1(ctx) -> RuleResult:
         raise AnalysisError(f"C03.W1: only {len(distinct_setters)} distinct setters found (floor 70)")
     res.unresolved = eng.unresolved
     return res
+
+
+# concatenated attribute records / property-group id list are written back at close() when workspace.repack is set (C04.DEFER)
+DEFERRED_FIELDS = {"_concatenated_attributes", "_property_group_ids", "_attributes_keys"}
+
+
+def _none_asserted(fn, fld) -> bool:
+    """The method starts from `assert self.<fld> is None`: a default initialisation, recomputed identically on every load."""
+    for n in ast.walk(fn.node):
+        if isinstance(n, ast.Assert) and unparse(n.test) == f"self.{fld} is None":
+            return True
+    return False
 
 
 def _is_noop_by_design(setter) -> bool:
